@@ -10,6 +10,7 @@ import (
 	"strings"
 	"sync"
 	"testing"
+	"time"
 
 	"filippo.io/edwards25519"
 	"github.com/MixinNetwork/mixin/verifmc"
@@ -168,7 +169,7 @@ type c12Scenario struct {
 
 func c12Scenarios(c *verifmc.Check) []c12Scenario {
 	var out []c12Scenario
-	b2 := verifmc.Pick(c, 2, 4)
+	b2 := verifmc.Pick(c, 2, 3)
 	// two threads, one call each: all 16 assignments
 	for a := 0; a < 5; a++ {
 		for b := 0; b < 5; b++ {
@@ -181,7 +182,7 @@ func c12Scenarios(c *verifmc.Check) []c12Scenario {
 		out = append(out, c12Scenario{fmt.Sprintf("2x2[%d%d|%d%d]", m[0][0], m[0][1], m[1][0], m[1][1]), [][]int{{m[0][0], m[0][1]}, {m[1][0], m[1][1]}}, 0, verifmc.Pick(c, 2, 3)})
 	}
 	// three threads, one call each: all assignments over {0,1,2} quick / {0,1,2,3} thorough
-	k := verifmc.Pick(c, 3, 5)
+	k := verifmc.Pick(c, 3, 4)
 	for a := 0; a < k; a++ {
 		for b := 0; b < k; b++ {
 			for d := 0; d < k; d++ {
@@ -204,7 +205,7 @@ func TestMC_C12(t *testing.T) {
 	incomplete := 0
 	c.ParallelN(len(scen), "scenarios", func(_, i int) {
 		sc := scen[i]
-		ex := &verifmc.Explorer{C: c, Bound: sc.bound, Name: sc.name}
+		ex := &verifmc.Explorer{C: c, Bound: sc.bound, Name: sc.name, StepTimeout: 5 * time.Minute}
 		ex.Body = func(s *verifmc.Sched, report func(key, desc string)) string {
 			n := CosiCommitNonce(bytes.NewReader(f.seed))
 			cp := *n // a copy of the handle shares the state
@@ -248,7 +249,7 @@ func TestMC_C12(t *testing.T) {
 		if !ok {
 			incomplete++
 		}
-		if len(ex.Outcomes) < 2 && len(sc.threads) >= 2 && sc.threads[0][0] != sc.threads[1][0] && !(sc.threads[0][0] < 2 && sc.threads[1][0] < 2) {
+		if ok && len(ex.Outcomes) < 2 && len(sc.threads) >= 2 && sc.threads[0][0] != sc.threads[1][0] && !(sc.threads[0][0] < 2 && sc.threads[1][0] < 2) {
 			c.Require(false, "scenario %s: only %d distinct outcome(s) from %d executions (no contention reached)", sc.name, len(ex.Outcomes), ex.Executions)
 		}
 		mu.Unlock()
@@ -256,7 +257,7 @@ func TestMC_C12(t *testing.T) {
 	c.Set("scenarios", len(scen))
 	c.Set("executions", totalExec)
 	c.Set("max_points_per_execution", maxPoints)
-	c.Set("preemption_bound", map[string]any{"2x1": verifmc.Pick(c, 2, 4), "2x2": verifmc.Pick(c, 2, 3), "3x1": verifmc.Pick(c, 2, 3)})
+	c.Set("preemption_bound", map[string]any{"2x1": verifmc.Pick(c, 2, 3), "2x2": verifmc.Pick(c, 2, 3), "3x1": verifmc.Pick(c, 2, 3)})
 	c.Require(totalExec > 1000, "too few executions: %d", totalExec)
 	c.Require(incomplete == 0 || c.Expired("check") || c.Violations() > 0, "incomplete explorations without cap: %d", incomplete)
 }
